@@ -376,4 +376,24 @@ def dump_omits_unconditionally(ctx, rid):
             r.violation(rid, "to_toml omits `%s` from the dump only under a condition" % fl[-1][4],
                         "the write does not dominate the serialisation call: whether the key is printed depends on the values of "
                         "the configuration being dumped", ["%s:%d" % (f.file, st[3])])
+    if n == 0:
+        # struct-update form: `PartialConfig { file_lines: None, …, ..self.clone() }` — one construction, nothing conditional about it
+        from common import operand_origin
+        for bb, i, st in f.stmts():
+            if st[0] == "=" and st[2][0] == "agg" and isinstance(st[2][1], list) and st[2][1][0] == "adt" \
+                    and st[2][1][1].endswith("PartialConfig") and any(c.bb in f.reachable(bb) for c in ser):
+                nones = 0
+                for op in st[2][2]:
+                    o = operand_origin(f, op)
+                    if (o[0] == "const") or (op[0] != "k" and not op[1][1] and f.single_def(op[1][0]) and f.single_def(op[1][0])[1] == "assign"
+                                             and f.single_def(op[1][0])[2][2][0] == "agg" and isinstance(f.single_def(op[1][0])[2][2][1], list)
+                                             and f.single_def(op[1][0])[2][2][1][0] == "adt" and f.single_def(op[1][0])[2][2][1][2] == "None"):
+                        nones += 1
+                ok = all(blocks_dominate(f, {bb}, c.bb) for c in ser if c.bb in f.reachable(bb))
+                n += nones
+                r.instance(rid, "to_toml builds the dumped value in one construction (%d fields None)" % nones, "ok" if ok else "violation",
+                           "%s:%d" % (f.file, st[3]))
+                if not ok:
+                    r.violation(rid, "to_toml builds the dumped configuration only under a condition",
+                                "the construction does not dominate the serialisation call", ["%s:%d" % (f.file, st[3])])
     r.floor(rid, n, 3, "fields cleared by PartialConfig::to_toml")
